@@ -32,6 +32,8 @@ def ensemble(V):
     for a, el in zip(e.fields["_atoms"].items, ("C", "O")):
         a.fields["element"] = I.getattr_(E, el)
         V.assume(z3.Length(a.fields["label"].z) > 0)
+    # a bond type other than the most common one: a reader that fills in a default for a missing type token is noticed
+    e.fields["_bonds"].items[0].fields["btype"] = I.getattr_(V.cls("molli.chem.bond:BondType"), "Double")
     # the name is not itself an integer / float literal (otherwise a damaged file could use it as a record count)
     nm = e.fields["_name"].z
     V.assume(z3.And(z3.Not(z3.Function("str_is_int_py", z3.StringSort(), z3.BoolSort())(nm)),
@@ -52,8 +54,16 @@ def damage_family(nlines):
     return fam
 
 
+def cut_family(I, lines):
+    """the text ends inside line k, after its first j whitespace-separated tokens (a truncation point inside a record, at a token
+    boundary; cuts inside a token turn a number into another well-formed number and are outside what any reader can see)"""
+    return [("cut", k, j) for k, ln in enumerate(lines) for j in range(1, len(tokens_of(I, ln)))]
+
+
 def apply_damage(lines, d, I=None):
     kind, k = d[0], d[1]
+    if kind == "cut":
+        return lines[:k] + [rebuild(tokens_of(I, lines[k])[:d[2]], newline=False)]
     if kind == "token":
         toks = tokens_of(I, lines[k])
         toks[d[2]] = d[3]
@@ -84,13 +94,14 @@ def tokens_of(I, line):
     return list(T.split(I, line if isinstance(line, T.SStr) else T.SStr([line])).items)
 
 
-def rebuild(toks):
+def rebuild(toks, newline=True):
     parts = []
     for j, t in enumerate(toks):
         if j:
             parts.append(" ")
         parts.append(T.SStr([T.Tok("str", t)]) if isinstance(t, SV) else t)
-    parts.append("\n")
+    if newline:
+        parts.append("\n")
     return T.SStr(parts)
 
 
@@ -137,6 +148,17 @@ def summarize(I, mols):
     return out
 
 
+def read_blocks(V, fmt, text):
+    """the parser level (read_mol2 / read_xyz on a stream): the blocks it hands out, or None when it rejects the text"""
+    I = V.I
+    fn = V.glob(f"molli.parsing.{fmt}:read_{fmt}")
+    sio = I.call(I.ext_models["io.StringIO"], [text], {})
+    try:
+        return list(I.iterate(I.call(fn, [sio], {})))
+    except PyExc:
+        return None
+
+
 def unit(fmt, tokens=False):
     def body(V):
         I, st = V.I, V.st
@@ -154,14 +176,25 @@ def unit(fmt, tokens=False):
         fam = token_family(I, lines, len(lines) if V.tier == "thorough" else len(lines) // 2) if tokens else damage_family(len(lines))
         if tokens and fmt == "mol2":
             fam = fam + atom_id_family(I, lines, len(lines))
+        if not tokens:
+            fam = fam + cut_family(I, lines)
         d = V.choose(fam, "damage")
-        V.witness(lambda ev: {"op": "damage", "format": fmt, "kind": d[0], "line": d[1], "nlines": len(lines), "token": d[2] if tokens else None,
+        V.witness(lambda ev: {"op": "damage", "format": fmt, "kind": d[0], "line": d[1], "nlines": len(lines), "token": d[2] if (tokens or d[0] == "cut") else None,
                               "new": d[3] if tokens else None, "signature": f"damage/{fmt}"})
         V.cover()
         ref = summarize(I, I.call(loader, [w.value], {}).items)
         declared = [(2, 1 if fmt == "mol2" else 0)] * 2
         text = T.SStr(apply_damage(lines, d, I))
         I.target = f"molli.parsing.{fmt}:read_{fmt}"
+        if not tokens:
+            # the parser itself (it is public: molli.parsing.read_xyz / read_mol2) hands out only complete blocks: as many atom
+            # (and bond) records as the block's own count line declares
+            blocks = read_blocks(V, fmt, text)
+            for j, b in enumerate(blocks or []):
+                hdr = b.fields["header"] if fmt == "mol2" else b
+                V.ensure(f"parser/block-{j}:has-the-atom-records-its-count-line-declares", I.eq(hdr.fields["n_atoms"], len(b.fields["atoms"].items)))
+                if fmt == "mol2":
+                    V.ensure(f"parser/block-{j}:has-the-bond-records-its-count-line-declares", I.eq(hdr.fields["n_bonds"], len(b.fields["bonds"].items)))
         try:
             r = I.call(loader, [text], {})
             out = Outcome("return", r)
